@@ -92,10 +92,14 @@ package database
 //@   at after (*Query).Matches ghost passes = passes + ((ok && ret0) ? 1 : 0)
 //@   at call (*Query).Matches assert arg1 == r
 //@   at send Feed assert mt && mq == sub.q
+//@   ghost var rl bool = false
+//@   at call (*RWMutex).RLock ghost rl = true
+//@   at optional call (*RWMutex).RUnlock ghost rl = false
+//@   at select Feed assert rl
 //@   at select Feed assert !blocking && passes == offers + 1
 //@   at select Feed ghost offers = offers + 1
 //@   at return assert passes == offers
-//@   loop 0 invariant rangeindex >= -1 && rangeindex <= 1<<48 && passes == offers
+//@   loop 0 invariant rangeindex >= -1 && rangeindex <= 1<<48 && passes == offers && rl
 
 // Put / PutNew: storage (or the write cache) is written only with all permissions or after
 // the existing record's metadata passed the permission check (getMeta) or does not exist
@@ -162,19 +166,31 @@ package database
 //@   requires s != nil
 //@   nopanic off
 //@   modifies *
-//@   at close assert chan == s.Feed && sub == s
-//@   loop 0 invariant true
+// (the feed is closed, and the list changed, only while holding the write lock that excludes notifySubscribers)
+//@   ghost var wl bool = false
+//@   at call (*RWMutex).Lock ghost wl = true
+//@   at optional call (*RWMutex).Unlock ghost wl = false
+//@   at close assert chan == s.Feed && sub == s && wl
+//@   at store subscriptions assert wl
+//@   loop 0 invariant wl
 
 //@ func (*RegisteredHook).Cancel
 //@   requires h != nil
 //@   nopanic off
 //@   modifies *
-//@   at store hooks assert hook == h
-//@   loop 0 invariant true
+//@   ghost var wl bool = false
+//@   at call (*RWMutex).Lock ghost wl = true
+//@   at optional call (*RWMutex).Unlock ghost wl = false
+//@   at store hooks assert hook == h && wl
+//@   loop 0 invariant wl
 
 //@ func RegisterHook
 //@   nopanic off
 //@   modifies *
+//@   ghost var wl bool = false
+//@   at call (*RWMutex).Lock ghost wl = true
+//@   at optional call (*RWMutex).Unlock ghost wl = false
+//@   at store hooks assert wl
 //@   ensures r1 == nil ==> r0 != nil && r0.q == q && r0.h == hook
 //@   ensures r1 != nil ==> r0 == nil
 
@@ -196,9 +212,13 @@ package database
 //@   at call (*Query).MatchesKey assert arg1 == key
 //@   at call invoke.PreGet assert uses && mk && mq == hook.q && hk == hook.h && arg0 == key
 //@   at after invoke.PreGet ghost e = ret0
+//@   ghost var rl bool = false
+//@   at call (*RWMutex).RLock ghost rl = true
+//@   at optional call (*RWMutex).RUnlock ghost rl = false
+//@   at call invoke.PreGet assert rl
 //@   ensures e != nil ==> r0 == e
 //@   ensures e == nil ==> r0 == nil
-//@   loop 0 invariant e == nil
+//@   loop 0 invariant e == nil && rl
 
 //@ func (*Controller).runPostGetHooks
 //@   requires c != nil
@@ -221,10 +241,14 @@ package database
 //@   at call invoke.PostGet assert uses && mt && mq == hook.q && hk == hook.h && mr == arg0 && arg0 == (called ? cur : first)
 //@   at after invoke.PostGet ghost cur = ret0
 //@   at after invoke.PostGet ghost e = ret1
+//@   ghost var rl bool = false
+//@   at call (*RWMutex).RLock ghost rl = true
+//@   at optional call (*RWMutex).RUnlock ghost rl = false
+//@   at call invoke.PostGet assert rl
 //@   at after invoke.PostGet ghost called = true
 //@   ensures e != nil ==> r1 == e && r0 == nil
 //@   ensures e == nil ==> r1 == nil && r0 == (called ? cur : first)
-//@   loop 0 invariant e == nil
+//@   loop 0 invariant e == nil && rl
 //@   loop 0 invariant r == (called ? cur : first)
 
 //@ func (*Controller).runPrePutHooks
@@ -248,10 +272,14 @@ package database
 //@   at call invoke.PrePut assert uses && mt && mq == hook.q && hk == hook.h && mr == arg0 && arg0 == (called ? cur : first)
 //@   at after invoke.PrePut ghost cur = ret0
 //@   at after invoke.PrePut ghost e = ret1
+//@   ghost var rl bool = false
+//@   at call (*RWMutex).RLock ghost rl = true
+//@   at optional call (*RWMutex).RUnlock ghost rl = false
+//@   at call invoke.PrePut assert rl
 //@   at after invoke.PrePut ghost called = true
 //@   ensures e != nil ==> r1 == e && r0 == nil
 //@   ensures e == nil ==> r1 == nil && r0 == (called ? cur : first)
-//@   loop 0 invariant e == nil
+//@   loop 0 invariant e == nil && rl
 //@   loop 0 invariant r == (called ? cur : first)
 
 // Get: the storage is only read after the pre-get hooks agreed; the record handed out is the post-get hooks' result
@@ -311,3 +339,12 @@ package database
 //@   nopanic off
 //@   modifies *
 //@   at call (*Controller).notifySubscribers assert arg0 == c && arg1 == r && c != nil
+
+//@ func (*Controller).addSubscription
+//@   requires c != nil
+//@   nopanic off
+//@   modifies *
+//@   ghost var wl bool = false
+//@   at call (*RWMutex).Lock ghost wl = true
+//@   at optional call (*RWMutex).Unlock ghost wl = false
+//@   at store subscriptions assert wl
